@@ -172,6 +172,9 @@ inductive Op where
   | dropGuard (k : Nat)
   | emit (v : Int)                    -- subject.next(v)
   | run                               -- run the executor until idle
+  /-- append to m_j a child whose own `unsubscribe()` appends `s` to m_j, then `m_j.unsubscribe()`:
+      a late addition made WHILE the composite is being torn down. -/
+  | unsubReapp (j : Nat) (s : Sub)
   deriving DecidableEq, Repr
 
 inductive Obs where
@@ -232,6 +235,15 @@ def step (m : Model) (w : W) : Op → W × Obs
       | some (some s) => (unsub s { w with guards := w.guards.set k none }, .ok)
       | _ => (w, .ok)
   | .emit v => (w, .out (((List.range w.n).filter w.alive).map fun i => (i, v)))
+  | .unsubReapp j s =>
+      -- `unsubscribe` takes the vector FIRST (the cell is `None` while the entries are torn down), so the
+      -- re-entrant `append` finds the composite unsubscribed: repaired code unsubscribes `s` at once, the
+      -- code before `fix: … late append` dropped it alive.  (Cell already `None`: the child itself is a late
+      -- addition — repaired: torn down at once, which appends `s`, again late; before: dropped, `s` never appended.)
+      let w1 := unsub (.multi j) w
+      (match m with
+       | .fixed => unsub s w1
+       | .code => w1, .ok)
   | .run =>
       ({ w with c0 := w.c0.map markRan, c1 := w.c1.map markRan,
                 orphans := w.orphans.map fun t => { t with ran := true } },
